@@ -37,6 +37,22 @@ add("C12", "MC_Block.tla", "MC_Block_C12_q", ("quick", "thorough"), 900, ["ActP"
 block_cfg("MC_Block_C12_t1", "C12", ALLK, ED, 2, 3, 4, ["p", "q"], ["C12", "C02", "C03"])
 add("C12", "MC_Block.tla", "MC_Block_C12_t1", ("thorough",), 3000, ["ActP", "ActQ", "ActExp"])
 
+# round trip / encryptor-decryptor state agreement (C01), export-import (C09), clone interleavings (C16)
+block_cfg("MC_Block_C01_q", "C01", ["cbc", "cfb", "ige"], ["enc"], 2, 2, 3, ["e", "d"], ["C01", "C09", "C02", "C03"])
+add("C01", "MC_Block.tla", "MC_Block_C01_q", ("quick", "thorough"), 900, ["ActE", "ActD", "ActExp"])
+block_cfg("MC_Block_C01_t1", "C01", ALLK, ["enc"], 2, 2, 3, ["e", "d"], ["C01", "C09", "C02", "C03"])
+add("C01", "MC_Block.tla", "MC_Block_C01_t1", ("thorough",), 3000, ["ActE", "ActD", "ActExp"])
+block_cfg("MC_Block_C01_t2", "C01", ["cbc", "cfb", "pcbc"], ["enc"], 1, 3, 4, ["e", "d"], ["C01", "C09", "C02", "C03"])
+add("C01", "MC_Block.tla", "MC_Block_C01_t2", ("thorough",), 3000, ["ActE", "ActD", "ActExp"])
+block_cfg("MC_Block_C09_q", "C09", ALLK, ED, 2, 2, 3, ["a", "r"], ["C09", "C02", "C03"])
+add("C09", "MC_Block.tla", "MC_Block_C09_q", ("quick", "thorough"), 900, ["ActA", "ActR", "ActImp", "ActExp"])
+block_cfg("MC_Block_C09_t1", "C09", ALLK, ED, 1, 3, 4, ["a", "r"], ["C09", "C02", "C03"])
+add("C09", "MC_Block.tla", "MC_Block_C09_t1", ("thorough",), 3000, ["ActA", "ActR", "ActImp", "ActExp"])
+block_cfg("MC_Block_C16_q", "C16", ALLK, ED, 2, 2, 2, ["a", "c"], ["C16", "C02", "C03"])
+add("C16", "MC_Block.tla", "MC_Block_C16_q", ("quick", "thorough"), 900, ["ActA", "ActC", "ActCln", "ActExp"])
+block_cfg("MC_Block_C16_t1", "C16", ALLK, ED, 2, 2, 3, ["a", "c"], ["C16", "C02", "C03"])
+add("C16", "MC_Block.tla", "MC_Block_C16_t1", ("thorough",), 3000, ["ActA", "ActC", "ActCln", "ActExp"])
+
 # --- byte-level stream ciphers: ImplStream.tla (wrapper + cores) vs the position machines ------------------
 def stream_cfg(name, prop, kinds, bs, fl, depth, fields, seeks, types, usize, invs, view=True, replay=False):
     txt = "CONSTANTS\n  KINDS = %s\n  BS = %d\n  FL = %d\n  DEPTH = %d\n  FIELDS = {%s}\n  SEEKS = {%s}\n  TYPES = %s\n  USIZE = %d\n  PROP = \"%s\"\n" % (
@@ -67,6 +83,25 @@ add("C11", "MC_Stream.tla", "MC_Stream_C11_usize", ("thorough",), 3000, ACTS)
 # the known finding, at model level: admitting a seek target inside the last, never-generated block breaks C11
 stream_cfg("MC_Stream_C11_finding", "C11", ["ctr32be"], 2, 2, 3, [0], [31], ["d3"], 8, ["C11"])
 add("C11", "MC_Stream.tla", "MC_Stream_C11_finding", ("thorough",), 900, [], {"expect": "C11"})
+
+# --- ciphertext stealing: ImplCts.tla bodies vs the Addendum (Ref.tla) ------------------------------------------
+def cts_cfg(name, prop, kinds, bs, ws, maxl, fixed, invs, replay=True):
+    txt = "CONSTANTS\n  KINDS = %s\n  DIRS = %s\n  BS = %d\n  WS = {%s}\n  MAXL = %d\n  FIXED = %s\n  PROP = \"%s\"\n" % (
+        sset(kinds), sset(ED), bs, ", ".join(map(str, ws)), maxl, "TRUE" if fixed else "FALSE", prop)
+    txt += "SPECIFICATION Spec\nINVARIANTS %s NoJunk%s\nCHECK_DEADLOCK FALSE\n" % (" ".join(invs), " EmitReplay" if replay else "")
+    open(os.path.join(HERE, name + ".cfg"), "w").write(txt)
+
+CTS = ["cbccs1", "cbccs2", "cbccs3", "ecbcs1", "ecbcs2", "ecbcs3"]
+for prop in ("C05", "C13"):
+    cts_cfg("MC_Cts_%s_q" % prop, prop, CTS, 2, [2, 3], 7, True, ["C05", "C12", "C13"])
+    add(prop, "MC_Cts.tla", "MC_Cts_%s_q" % prop, ("quick", "thorough"), 600, ["RunP", "RunQ"])
+    cts_cfg("MC_Cts_%s_t1" % prop, prop, CTS, 3, [2], 13, True, ["C05", "C12", "C13"])
+    add(prop, "MC_Cts.tla", "MC_Cts_%s_t1" % prop, ("thorough",), 1800, ["RunP", "RunQ"])
+    cts_cfg("MC_Cts_%s_t2" % prop, prop, CTS, 1, [1, 3], 8, True, ["C05", "C12", "C13"])
+    add(prop, "MC_Cts.tla", "MC_Cts_%s_t2" % prop, ("thorough",), 1800, ["RunP", "RunQ"])
+# the defect repaired in /repo (commit "fix: cts: CS3 ..."), at model level: the pre-repair bodies violate C05 at L = BS
+cts_cfg("MC_Cts_C05_unfixed", "C05", ["cbccs3", "ecbcs3"], 2, [1], 4, False, ["C05"], replay=False)
+add("C05", "MC_Cts.tla", "MC_Cts_C05_unfixed", ("thorough",), 600, [], {"expect": "C05"})
 
 open(os.path.join(HERE, "..", "mc_configs.py"), "w").write(
     "# generated by spec/gen_cfgs.py - model-checking configurations per property:\n"
